@@ -4,7 +4,7 @@ import ast
 from ..absint import Explorer, UNKNOWN
 from ..astutil import norm, const, NO, compare, tail, names
 from ..index import AnalysisError, walk_own
-from .common import (site, key, calls_to, method_calls, nodes_with, guard_check, stores_to_name, cfg_attr)
+from .common import (site, key, calls_to, method_calls, nodes_with, guard_check, stores_to_name, cfg_attr, through_locals)
 from . import c03
 from .c10 import _alias
 from .c04 import RUN_LOOPS
@@ -46,7 +46,7 @@ def r1(ctx):
     wclk = set()
     for c in ut:
         for a in c.args[1:]:
-            for x in ast.walk(a):
+            for x in through_locals(fn, a):
                 if isinstance(x, ast.Name):
                     for s in stores_to_name(fn, x.id):
                         wclk |= set(clocks_in(repo, fn, s.ast))
